@@ -47,6 +47,8 @@ type Hist struct {
 	r     *rand.Rand
 	focus string
 	whale bool
+	// the vault's parameters as governance last read them: a proposal is drafted from a query, voted on, and executed blocks later
+	vaultDraft *sstypes.Params
 }
 
 func (h *Hist) user() *Acct { return h.w.Accts[h.r.Intn(len(h.w.Accts)-1)] } // last account is the feeder
